@@ -144,7 +144,7 @@ func (c *CryptoCodec) encryptCBC(block cipher.Block, iv, text []byte) []byte {
 
 	padded := text
 	if c.padding != NOPAD {
-		padSize := aes.BlockSize - (len(text) & aes.BlockSize)
+		padSize := aes.BlockSize - (len(text) % aes.BlockSize)
 		padding := bytes.Repeat([]byte{byte(padSize)}, padSize)
 		padded = append(padded, padding...)
 	}
